@@ -214,6 +214,22 @@ func (g *c04Gen) junk(stage string, w *[][]string) {
 		}
 		*w = append(*w, []string{"files", n, n[strings.LastIndex(n, "_s")+2 : len(n)-4]})
 	}
+	// a file next to another one whose whole name is a prefix of its own
+	// (reads.bam / reads.bam.bai): path containment must not be a string
+	// prefix test
+	if g.r.Intn(3) == 0 {
+		var prev []string
+		for _, e := range *w {
+			if e[0] == "files" {
+				prev = append(prev, e[1])
+			}
+		}
+		if len(prev) > 0 {
+			n := prev[g.r.Intn(len(prev))] + ".idx"
+			*w = append(*w, []string{"files", n, fmt.Sprint(1 + g.r.Intn(3000))})
+			g.feat("sibling_with_name_prefix")
+		}
+	}
 	for k := g.r.Intn(3); k > 0; k-- {
 		n := g.fileName(stage, "tmp")
 		*w = append(*w, []string{"tmp", n, n[strings.LastIndex(n, "_s")+2 : len(n)-4]})
